@@ -129,7 +129,7 @@ def _formulas(tier, seed):
     d1 = ltlf.enumerate_formulas(1, 2)
     d2 = [f for f in ltlf.enumerate_formulas(2, 2) if ltlf.depth(f) == 2]
     out = list(d1)
-    n2, n3, n3atoms = (260, 60, 20) if tier == "quick" else (len(d2), 2500, 300)
+    n2, n3, n3atoms = (200, 40, 16) if tier == "quick" else (len(d2), 2500, 300)
     if n2 >= len(d2):
         out += d2
     else:
